@@ -24,7 +24,7 @@ SUB_F = 64.0                       # Hz per frequency sub-tick; MAX_FREQUENCY = 
 RULE = ("every pair of calls of the TLA+ enumeration (54 geometries of all nine kinds incl. shapes on the edges time 0, "
         "frequency 0 and MAX_FREQUENCY and events later than 5e6 s; time/frequency buffers 0, 1/2, 1, 2 ticks and beyond the domain "
         "(time buffers up to 1e8 s for the closed-form kinds: the time axis has no upper edge), paired with the next "
-        "larger setting; negative-buffer combinations; the buffer arguments passed as Python int/float and as numpy float64/float32/"
+        "larger setting; negative-buffer combinations incl. tiny magnitudes -1e-9 .. -5e-324 and -0.0 on either axis; the buffer arguments passed as Python int/float and as numpy float64/float32/"
         "int64/uint8/16/32/64 scalars wherever the type holds the value) plus random geometries and buffers on a larger lattice; each probed on a "
         "grid of lattice points around the geometry; non-trivial = both buffers non-negative and not both zero")
 TRUSTED_BASE = ["checks/c11.py + vt/geom.py (build geometries and buffers on dyadic units, call buffer_geometry, min/max of the "
@@ -76,9 +76,13 @@ def _typed(value, ty):
     return x
 
 
-def _run(g, b, tys, probes, st):
+def _run(g, b, tys, tiny, probes, st):
     blank = {"raised": "", "type": "", "coords": [], "bounds": [], "closed": False, "inside": []}
     tb, fb = _typed(b[0] * st, tys[0]), _typed(b[1] * SUB_F, tys[1])
+    if tiny[0]:                                   # a named real number around zero instead of the lattice buffer (Buffer!TinyNames)
+        tb = float(tiny[0])
+    if tiny[1]:
+        fb = float(tiny[1])
     try:
         r = buffer_geometry(g, time_buffer=tb, freq_buffer=fb)
     except Exception as ex:                     # an observation, judged by the spec
@@ -110,7 +114,8 @@ def execute(case):
     g = build(case["g"], st, SUB_F)
     probes = [(p[0] * st, p[1] * SUB_F) for p in case["probes"]]
     t1, t2 = case.get("t1", ["float", "float"]), case.get("t2", ["float", "float"])
-    return {"r1": _run(g, case["b1"], t1, probes, st), "r2": _run(g, case["b2"], t2, probes, st)}
+    e1, e2 = case.get("e1", ["", ""]), case.get("e2", ["", ""])
+    return {"r1": _run(g, case["b1"], t1, e1, probes, st), "r2": _run(g, case["b2"], t2, e2, probes, st)}
 
 
 # ----------------------------------------------------------------------------- random cases on a larger lattice
@@ -254,7 +259,14 @@ def random_cases(rng, tier):
         if rng.random() < 0.5:                           # buffers that are whole seconds, so that the integer types apply
             b1[0] -= b1[0] % _SUB_PER_SEC[u - 1]
             b2[0] -= b2[0] % _SUB_PER_SEC[u - 1] if b2[0] >= 0 else 0
-        yield {"g": g, "b1": b1, "b2": b2, "t1": _arg_types(rng, b1, u), "t2": _arg_types(rng, b2, u),
+        e1, e2 = ["", ""], ["", ""]
+        if rng.random() < 0.15:                          # a tiny magnitude around zero on an axis whose lattice buffer is then 0
+            for b, e in ((b1, e1), (b2, e2)):
+                ax = rng.randint(0, 1)
+                if b[ax] >= 0 and rng.random() < 0.7:
+                    b[ax] = 0
+                    e[ax] = rng.choice(["-1e-9", "-1e-10", "-1e-12", "-5e-324", "-0.0"])
+        yield {"g": g, "b1": b1, "b2": b2, "t1": _arg_types(rng, b1, u), "t2": _arg_types(rng, b2, u), "e1": e1, "e2": e2,
                "probes": _rand_probes(rng, g), "u": u}      # buffers stay below 2^20 sub-ticks (Buffer!SlackFor)
 
 
@@ -282,7 +294,8 @@ def finding_key(obs, clause):
 
 def nontrivial(o):
     b1, b2 = o["in"]["b1"], o["in"]["b2"]
-    return min(b1 + b2) >= 0 and max(b1 + b2) > 0
+    tiny = [n for n in o["in"].get("e1", []) + o["in"].get("e2", []) if n and n != "-0.0"]
+    return min(b1 + b2) >= 0 and max(b1 + b2) > 0 and not tiny
 
 
 MANIFEST = {
